@@ -2,8 +2,11 @@
 (* Driver for the structural calibration model (coq/Cal/AddModel.v, TermsModel.v).  Input lines:
      cfg TYPECODE MR MC MERR NVALID        start a new calibration (handles 0..NVALID-1 are valid)
      add AG AR AC BR BC SR SC DIAG MAPGIVEN NMAP map.. NS s..      one _vnacal_new_add_common call
+     addfn FN AG AR AC BR BC args                                  one call of a model ENTRY POINT of AddModel:
+        sr S11 PORT | dr S11 S22 P1 P2 | th P1 P2 | ln S11 S12 S21 S22 P1 P2 | mm SR SC NS s.. MAPGIVEN NMAP map..
      dump                                  print the structure in the format of harness/calcore_e2e.c
-   Output: "add rc=0" | "add rc=-1 check=K" | "add abort=K", and the dump lines. *)
+   Output: "add rc=0" | "add rc=-1 check=K" | "add abort=K", and the dump lines ("B i map=cell:tag,.." is the
+   result of the copy loop store_m on a caller's matrix whose cells carry the tags 1, 2, ..). *)
 (* integer glue (the shared glue.ml.inc also needs the rational types, which this model does not extract) *)
 module ZZ = Z
 open MODELS
@@ -58,6 +61,32 @@ let () =
            | Accepted _ -> print_string "add rc=0\n"
            | Rejected k -> Printf.printf "add rc=-1 check=%d\n" (int_of_nat k)
            | Aborts k -> Printf.printf "add abort=%d\n" (int_of_nat k))
+        | "addfn" ->
+          let fn = next () in
+          let ag = nint () <> 0 in
+          let ar = nz () in let ac = nz () in let br = nz () in let bc = nz () in
+          let nv = !nvalid in
+          let valid (h : z) = let k = zi h in k >= 0 && k < nv in
+          let mr_ = nat_of_int !mr and mc_ = nat_of_int !mc in
+          let o =
+            match fn with
+            | "sr" -> let s11 = nz () in let port = nz () in
+              add_single_reflect !ty mr_ mc_ !merr valid ag ar ac br bc s11 port
+            | "dr" -> let s11 = nz () in let s22 = nz () in let p1 = nz () in let p2 = nz () in
+              add_double_reflect !ty mr_ mc_ !merr valid ag ar ac br bc s11 s22 p1 p2
+            | "th" -> let p1 = nz () in let p2 = nz () in
+              add_through !ty mr_ mc_ !merr valid ag ar ac br bc p1 p2
+            | "ln" -> let s11 = nz () in let s12 = nz () in let s21 = nz () in let s22 = nz () in
+              let p1 = nz () in let p2 = nz () in
+              add_line !ty mr_ mc_ !merr valid ag ar ac br bc s11 s12 s21 s22 p1 p2
+            | "mm" -> let sr = nz () in let sc = nz () in let ns = nint () in let s = times ns nz in
+              let mg = nint () <> 0 in let nmap = nint () in let mp = times nmap nz in
+              add_mapped_matrix !ty mr_ mc_ !merr valid ag ar ac br bc s sr sc (if mg then Some mp else None)
+            | s -> failwith ("addfn " ^ s) in
+          (match o with
+           | Accepted m -> st := !st @ [m]; print_string "add rc=0\n"
+           | Rejected k -> Printf.printf "add rc=-1 check=%d\n" (int_of_nat k)
+           | Aborts k -> Printf.printf "add abort=%d\n" (int_of_nat k))
         | "dump" ->
           let nsys = int_of_nat (systems_of !ty (nat_of_int !mc)) in
           let neq = List.fold_left (fun a m -> a + List.length m.ms_eqs) 0 !st in
@@ -70,6 +99,12 @@ let () =
           List.iteri (fun i m ->
             Printf.printf "M %d cells=" i;
             List.iteri (fun c g -> if g then Printf.printf "%d," c) m.ms_m_given;
+            print_string "\n";
+            let ncells = !mr * !mc in
+            let tags = List.mapi (fun k _ -> k + 1) m.ms_m_cells in
+            Printf.printf "B %d map=" i;
+            List.iteri (fun c v -> match v with Some tag -> Printf.printf "%d:%d," c tag | None -> ())
+              (store_m (nat_of_int ncells) m.ms_m_cells tags);
             print_string "\nS";
             List.iteri (fun c s -> match s with
               | SNull -> Printf.printf " %d:-" c
